@@ -115,3 +115,56 @@ func relayAbandoned(e *vh.Env, base int) {
 		e.Count("abandoned-then-new-clients")
 	}
 }
+
+// relayBurst (C01): many clients arrive while no pending-list poll is outstanding (the agent was busy or briefly away);
+// the next polls must report every one of them, and every client must get the response to its own request.
+func relayBurst(e *vh.Env, base int) {
+	if !e.Want(base) || e.Failed() {
+		return
+	}
+	rig := startProxy()
+	defer rig.stop()
+	n := e.N(130, 400)
+	results := make([]clientResult, n)
+	var wg sync.WaitGroup
+	for k := 0; k < n; k++ {
+		wg.Add(1)
+		go func(k int) {
+			defer wg.Done()
+			results[k] = clientCall(rig.proxyURL, fmt.Sprintf("B-%d", k), 10*time.Second)
+		}(k)
+	}
+	time.Sleep(400 * time.Millisecond) // all of them are queued; nobody has polled yet
+	seen := map[string]string{}
+	var perPoll []int
+	deadline := time.Now().Add(6 * time.Second)
+	for len(seen) < n && time.Now().Before(deadline) {
+		ids, _, err := agentList(rig.proxyURL, 500*time.Millisecond)
+		if err != nil {
+			continue
+		}
+		perPoll = append(perPoll, len(ids))
+		for _, id := range ids {
+			if st, wire := agentFetch(rig.proxyURL, id); st == 200 {
+				tok := tokOfRequest(wire)
+				seen[id] = tok
+				go agentUpload(rig.proxyURL, id, echoResponse(tok), 3*time.Second)
+			}
+		}
+	}
+	wg.Wait()
+	lost, wrong := 0, 0
+	for k, res := range results {
+		tok := fmt.Sprintf("B-%d", k)
+		if res.err != nil {
+			lost++
+		} else if res.tok != tok {
+			wrong++
+		}
+	}
+	if lost > 0 || wrong > 0 || len(seen) != n {
+		e.Fail("C01:client-not-answered", fmt.Sprintf("%d clients arrived while no poll was outstanding; the following polls listed %v IDs (%d in all); %d clients never received a response, %d received another request's", n, perPoll, len(seen), lost, wrong), base, nil, len(seen), n)
+	}
+	e.Eval("burst", true)
+	e.Count("burst-before-first-poll")
+}
